@@ -25,6 +25,7 @@ func init() {
 			{ID: "C14-R4", Doc: "a stopped machine leaves whichever queue holds it, so it is replaced and never resurrected (shared)", Run: c14r4},
 			{ID: "C10-R3", Doc: "a shuffle input that fails mid-merge is reported, never taken for its end (shared)", Run: c10r3},
 			{ID: "C03-R5", Doc: "released dependents are re-examined, so a dependency lost in the meantime is recomputed (shared)", Run: c03r5},
+			{ID: "C05-R9", Doc: "driver and worker agree on one location per dependency task (shared)", Run: c05r9},
 		},
 	})
 }
